@@ -46,7 +46,7 @@ func init() {
 		Doc: "W5 restricted to the decoder option word (consts.F_*): each bit keeps its consumers in jitdec and optdec, and every bit tested by one decoder implementation is tested by the other.",
 		Run: func(c *core.Ctx) { runW5f(c, "F_") }})
 	register(&core.Rule{ID: "W5", Min: 40,
-		Doc: "Consumer parity: for every canonical option bit, each consumer function of the frozen table (x86 emitter handler, VM arm, shared Go primitive or post-pass, in both executors of the same IR) still references that bit (by object, through aliases). A consumer that disappears or is re-pointed to another bit is a dropped/crossed wire below the API layer.",
+		Doc: "Consumer parity: for every canonical option bit, each consumer function of the frozen table (x86 emitter handler, VM arm, shared Go primitive or post-pass, in both executors of the same IR) still references that bit (by object, through aliases), itself or in a helper it calls (two levels). A consumer that disappears or is re-pointed to another bit is a dropped/crossed wire below the API layer.",
 		Run: runW5})
 }
 
@@ -122,9 +122,24 @@ func runW5f(c *core.Ctx, prefix string) {
 		for _, fn := range consumerTable[b] {
 			cn := b + "@" + fn
 			ps := uses[b][fn]
+			via := ""
+			if len(ps) == 0 {
+				// the reference may sit in a helper the consumer calls (two levels): moving the
+				// test into a shared helper does not drop the wire
+				for _, callee := range calleeClosure(c.Prog, fn, 2) {
+					if q := uses[b][callee]; len(q) > 0 {
+						ps, via = q, callee
+						break
+					}
+				}
+			}
 			if len(ps) > 0 {
 				c.Analysed(fn)
-				c.OK(cn, ps[0], "consumes %s (%d reference(s))", b, len(ps))
+				if via != "" {
+					c.OK(cn, ps[0], "consumes %s through its helper %s", b, via)
+				} else {
+					c.OK(cn, ps[0], "consumes %s (%d reference(s))", b, len(ps))
+				}
 			} else {
 				var have []string
 				for f := range uses[b] {
@@ -295,4 +310,65 @@ func containsExpr(root ast.Expr, e ast.Expr) bool {
 		return !f
 	})
 	return f
+}
+
+// calleeClosure lists the sonic functions fn calls, directly or through depth levels of callees.
+func calleeClosure(p *core.Program, fn string, depth int) []string {
+	idx, ok := p.Cache["funcdecl-index"].(map[string]*funcRef)
+	if !ok {
+		idx = map[string]*funcRef{}
+		for _, pk := range p.Pkgs {
+			for _, fd := range core.FuncDecls(pk) {
+				if fd.Body != nil {
+					idx[core.FuncName(pk, fd)] = &funcRef{pk.PkgPath, fd}
+				}
+			}
+		}
+		if p.Cache == nil {
+			p.Cache = map[string]interface{}{}
+		}
+		p.Cache["funcdecl-index"] = idx
+	}
+	byObj, ok := p.Cache["funcdecl-byobj"].(map[types.Object]string)
+	if !ok {
+		byObj = map[types.Object]string{}
+		for name, r := range idx {
+			if o := p.ObjectOf(r.fd.Name); o != nil {
+				byObj[o] = name
+			}
+		}
+		p.Cache["funcdecl-byobj"] = byObj
+	}
+	seen := map[string]bool{fn: true}
+	var out []string
+	frontier := []string{fn}
+	for d := 0; d < depth; d++ {
+		var next []string
+		for _, f := range frontier {
+			r := idx[f]
+			if r == nil {
+				continue
+			}
+			ast.Inspect(r.fd.Body, func(n ast.Node) bool {
+				if call, ok := n.(*ast.CallExpr); ok {
+					if o := p.Callee(call); o != nil {
+						if name, ok := byObj[o]; ok && !seen[name] {
+							seen[name] = true
+							out = append(out, name)
+							next = append(next, name)
+						}
+					}
+				}
+				return true
+			})
+		}
+		frontier = next
+	}
+	sort.Strings(out)
+	return out
+}
+
+type funcRef struct {
+	pkg string
+	fd  *ast.FuncDecl
 }
